@@ -32,24 +32,24 @@ fn run_c19(tier: &str) -> i32 {
     for rt in [RtKind::Tokio, RtKind::Smol] {
         let plans: Vec<(String, Spec, u32)> = if tier == "thorough" {
             vec![
-                (format!("{rt:?}/1-dir/<=3msgs/16slots/dev2"), Spec { rt, sizes: vec![1, 300, 6000, 70000], max_msgs: 3, slots: 16, bidir: false, cancels: true, small_buffers: true, abandon_within: 0 }, 2),
-                (format!("{rt:?}/1-dir/<=2msgs/10slots/dev3"), Spec { rt, sizes: vec![300, 6000, 70000], max_msgs: 2, slots: 10, bidir: false, cancels: true, small_buffers: true, abandon_within: 0 }, 3),
-                (format!("{rt:?}/2-dir/<=2msgs/12slots/dev2"), Spec { rt, sizes: vec![300, 70000], max_msgs: 2, slots: 12, bidir: true, cancels: true, small_buffers: true, abandon_within: 0 }, 2),
-                (format!("{rt:?}/1MiB/default-buffers/12slots/dev1"), Spec { rt, sizes: vec![1 << 20], max_msgs: 2, slots: 12, bidir: false, cancels: true, small_buffers: false, abandon_within: 0 }, 1),
+                (format!("{rt:?}/1-dir/<=3msgs/16slots/dev2"), Spec { rt, sizes: vec![1, 300, 6000, 70000], max_msgs: 3, slots: 16, bidir: false, cancels: true, small_buffers: true, abandon_within: 0, recv_cancels: false }, 2),
+                (format!("{rt:?}/1-dir/<=2msgs/10slots/dev3"), Spec { rt, sizes: vec![300, 6000, 70000], max_msgs: 2, slots: 10, bidir: false, cancels: true, small_buffers: true, abandon_within: 0, recv_cancels: false }, 3),
+                (format!("{rt:?}/2-dir/<=2msgs/12slots/dev2"), Spec { rt, sizes: vec![300, 70000], max_msgs: 2, slots: 12, bidir: true, cancels: true, small_buffers: true, abandon_within: 0, recv_cancels: false }, 2),
+                (format!("{rt:?}/1MiB/default-buffers/12slots/dev1"), Spec { rt, sizes: vec![1 << 20], max_msgs: 2, slots: 12, bidir: false, cancels: true, small_buffers: false, abandon_within: 0, recv_cancels: false }, 1),
             ]
         } else {
             vec![
-                (format!("{rt:?}/1-dir/<=2msgs/10slots/dev2"), Spec { rt, sizes: vec![1, 300, 6000, 70000], max_msgs: 2, slots: 10, bidir: false, cancels: true, small_buffers: true, abandon_within: 0 }, 2),
-                (format!("{rt:?}/1-dir/3msgs/8slots/dev1"), Spec { rt, sizes: vec![300, 70000], max_msgs: 3, slots: 8, bidir: false, cancels: true, small_buffers: true, abandon_within: 0 }, 1),
-                (format!("{rt:?}/2-dir/<=2msgs/8slots/dev1"), Spec { rt, sizes: vec![300, 70000], max_msgs: 2, slots: 8, bidir: true, cancels: true, small_buffers: true, abandon_within: 0 }, 1),
+                (format!("{rt:?}/1-dir/<=2msgs/10slots/dev2"), Spec { rt, sizes: vec![1, 300, 6000, 70000], max_msgs: 2, slots: 10, bidir: false, cancels: true, small_buffers: true, abandon_within: 0, recv_cancels: false }, 2),
+                (format!("{rt:?}/1-dir/3msgs/8slots/dev1"), Spec { rt, sizes: vec![300, 70000], max_msgs: 3, slots: 8, bidir: false, cancels: true, small_buffers: true, abandon_within: 0, recv_cancels: false }, 1),
+                (format!("{rt:?}/2-dir/<=2msgs/8slots/dev1"), Spec { rt, sizes: vec![300, 70000], max_msgs: 2, slots: 8, bidir: true, cancels: true, small_buffers: true, abandon_within: 0, recv_cancels: false }, 1),
             ]
         };
         let mut plans = plans;
         // abandon one send after k sender polls, for every k: cancellation points deep inside long sends
-        plans.push((format!("{rt:?}/abandon-after-k-polls/small-buffers"), Spec { rt, sizes: vec![300, 70000], max_msgs: 3, slots: 0, bidir: false, cancels: false, small_buffers: true, abandon_within: if tier == "thorough" { 40 } else { 24 } }, 0));
+        plans.push((format!("{rt:?}/abandon-after-k-polls/small-buffers"), Spec { rt, sizes: vec![300, 70000], max_msgs: 3, slots: 0, bidir: false, cancels: false, small_buffers: true, abandon_within: if tier == "thorough" { 40 } else { 24 }, recv_cancels: false }, 0));
         // several sends abandoned in a row (a retry that is itself abandoned before it made progress)
-        plans.push((format!("{rt:?}/abandoned-retries/3msgs/{}slots/dev{}", if tier == "thorough" { 9 } else { 6 }, if tier == "thorough" { 3 } else { 2 }), Spec { rt, sizes: vec![6000, 70000], max_msgs: 3, slots: if tier == "thorough" { 9 } else { 6 }, bidir: false, cancels: true, small_buffers: true, abandon_within: 0 }, if tier == "thorough" { 3 } else { 2 }));
-        plans.push((format!("{rt:?}/abandon-after-k-polls/default-buffers"), Spec { rt, sizes: vec![300, 400_000], max_msgs: 3, slots: 0, bidir: false, cancels: false, small_buffers: false, abandon_within: 6 }, 0));
+        plans.push((format!("{rt:?}/abandoned-retries/3msgs/{}slots/dev{}", if tier == "thorough" { 9 } else { 6 }, if tier == "thorough" { 3 } else { 2 }), Spec { rt, sizes: vec![6000, 70000], max_msgs: 3, slots: if tier == "thorough" { 9 } else { 6 }, bidir: false, cancels: true, small_buffers: true, abandon_within: 0, recv_cancels: false }, if tier == "thorough" { 3 } else { 2 }));
+        plans.push((format!("{rt:?}/abandon-after-k-polls/default-buffers"), Spec { rt, sizes: vec![300, 400_000], max_msgs: 3, slots: 0, bidir: false, cancels: false, small_buffers: false, abandon_within: 6, recv_cancels: false }, 0));
         for (name, spec, budget) in plans {
             let cfg = Config { budget, ..cfg_base.clone() };
             let h = Sched(spec);
@@ -115,6 +115,31 @@ fn run_c19(tier: &str) -> i32 {
         }));
     }
     rep.finish()
+}
+
+/// C07 over the runtimes' real transports (child of the C07 check): pending receive futures are
+/// dropped at scheduled moments and new ones started; what is received must still be exactly what
+/// was sent.  Prints one JSON line.
+fn c07_child(tier: &str) -> i32 {
+    let cfg_base = Config { max_wall: std::time::Duration::from_secs(tier_pick(tier, 60, 900)), ..Default::default() };
+    let mut phases = Vec::new();
+    for rt in [RtKind::Tokio, RtKind::Smol] {
+        let th = tier == "thorough";
+        let plans: Vec<(String, Spec, u32)> = vec![
+            (format!("{rt:?}/recv-cancel/1-dir/<={}msgs/{}slots/dev2", if th { 3 } else { 2 }, if th { 14 } else { 9 }), Spec { rt, sizes: vec![1, 300, 6000, 70000], max_msgs: if th { 3 } else { 2 }, slots: if th { 14 } else { 9 }, bidir: false, cancels: false, small_buffers: true, abandon_within: 0, recv_cancels: true }, 2),
+            (format!("{rt:?}/recv-cancel/2-dir/<=2msgs/8slots/dev{}", if th { 2 } else { 1 }), Spec { rt, sizes: vec![300, 70000], max_msgs: 2, slots: 8, bidir: true, cancels: false, small_buffers: true, abandon_within: 0, recv_cancels: true }, if th { 2 } else { 1 }),
+            (format!("{rt:?}/recv-cancel/default-buffers/<=2msgs/6slots/dev1"), Spec { rt, sizes: vec![300, 9000, 250_000], max_msgs: 2, slots: 6, bidir: false, cancels: false, small_buffers: false, abandon_within: 0, recv_cancels: true }, 1),
+        ];
+        for (name, spec, budget) in plans {
+            let cfg = Config { budget, ..cfg_base.clone() };
+            let h = Sched(spec);
+            let st = explore(&name, h.0.to_json(), &h, &cfg);
+            eprintln!("[C07 child] phase {name}: {} executions, {} violation classes, {:.1}s", st.evals, st.violations.len(), st.wall);
+            phases.push(st);
+        }
+    }
+    println!("{}", xplore::report::child_json(&phases, "C19"));
+    0
 }
 
 fn run_c20(tier: &str) -> i32 {
@@ -239,6 +264,7 @@ fn main() {
     let code = match args.first().map(|s| s.as_str()) {
         Some("c19") => run_c19(&tier),
         Some("c20") => run_c20(&tier),
+        Some("c07-child") => c07_child(&tier),
         Some("--replay") => replay(args.get(1).map(|s| s.as_str()).unwrap_or("")),
         _ => {
             eprintln!("usage: sockets c19|c20 [--tier quick|thorough] | --replay <file>");
